@@ -232,6 +232,12 @@ def dominating_def(name_node: ast.Name, stop_at: ast.AST) -> Optional[ast.AST]:
                 return st.value
             if isinstance(st, ast.AnnAssign) and isinstance(st.target, ast.Name) and st.target.id == name and st.value is not None:
                 return st.value
+            if isinstance(st, ast.Assign) and len(st.targets) == 1 and isinstance(st.targets[0], (ast.Tuple, ast.List)):
+                for i, t in enumerate(st.targets[0].elts):
+                    if isinstance(t, ast.Name) and t.id == name:
+                        if isinstance(st.value, (ast.Tuple, ast.List)) and len(st.value.elts) == len(st.targets[0].elts):
+                            return st.value.elts[i]
+                        return ast.Subscript(value=st.value, slice=ast.Constant(value=i), ctx=ast.Load())
             # any other statement that (re)binds the name anywhere inside makes the answer unknown
             for x in ast.walk(st):
                 if isinstance(x, ast.Name) and x.id == name and isinstance(x.ctx, (ast.Store, ast.Del)):
@@ -352,3 +358,122 @@ def iterates_over(node: ast.AST, fn: ast.AST, name: str) -> bool:
                 return True
         cur = par
     return False
+
+
+# ---------------------------------------------------------------- seeing through extracted helpers
+def _set_parents(tree):
+    for p in ast.walk(tree):
+        for c in ast.iter_child_nodes(p):
+            c._parent = p
+    return tree
+
+
+def _subst(node, mapping):
+    class S(ast.NodeTransformer):
+        def visit_Name(self, n):
+            if n.id in mapping and isinstance(n.ctx, ast.Load):
+                return clone(mapping[n.id])
+            return n
+    return S().visit(node)
+
+
+def _callee(ix, fi, call):
+    """FuncInfo of a *private* helper called as `self._h(...)`, `cls._h(...)` or `_h(...)` (same class / same module)."""
+    f = call.func
+    name = None
+    if isinstance(f, ast.Attribute) and isinstance(f.value, ast.Name) and f.value.id in ("self", "cls"):
+        name = f.attr
+        if fi.cls is not None:
+            for ci in [fi.cls] + [c for c in getattr(fi.cls, "mro_infos", [])]:
+                if name in ci.methods:
+                    return ci.methods[name], True
+        for g in fi.module.all_functions:
+            if g.name == name and g.cls is not None:
+                return g, True
+    elif isinstance(f, ast.Name):
+        name = f.id
+        for g in fi.module.all_functions:
+            if g.name == name and g.cls is None and g is not fi:
+                return g, False
+    return None, False
+
+
+def inline_helpers(ix, fi, depth: int = 2):
+    """A fresh FunctionDef for `fi` in which expression statements that call a private, value-less helper of the same
+    class/module (`self._h(a, b)` / `_h(a, b)`, name starting with '_', no `return <value>`) are replaced by the
+    helper's body with parameters substituted.  Parents are set on the result so `resolve`/`facts_at` work on it.
+    Used so that an extracted helper does not hide the statements a rule is looking for."""
+    fn = _set_parents(clone(fi.node) if False else ast.parse(ast.unparse(fi.node)).body[0])
+
+    def expandable(call):
+        g, is_method = _callee(ix, fi, call)
+        if g is None or not g.name.startswith("_") or g.name.startswith("__") or not isinstance(g.node, ast.FunctionDef):
+            return None
+        if any(isinstance(r, ast.Return) and r.value is not None and not (isinstance(r.value, ast.Constant) and r.value.value is None) for r in walk_local(g.node)):
+            return None
+        ps = [a.arg for a in g.node.args.args]
+        if is_method and ps and ps[0] in ("self", "cls"):
+            ps = ps[1:]
+        if len(call.args) > len(ps) and not g.node.args.vararg:
+            return None
+        mapping = {}
+        pos = [a for a in call.args if not isinstance(a, ast.Starred)]
+        for p_, a in zip(ps, pos):
+            mapping[p_] = a
+        for k in call.keywords:
+            if k.arg:
+                mapping[k.arg] = k.value
+        body = [st for st in ast.parse(ast.unparse(g.node)).body[0].body if not (isinstance(st, ast.Expr) and isinstance(st.value, ast.Constant))]
+        # *args / **kwargs of the helper: forwarded star arguments keep their meaning, absent ones disappear
+        va, kwa = (g.node.args.vararg.arg if g.node.args.vararg else None), (g.node.args.kwarg.arg if g.node.args.kwarg else None)
+        star = [a.value for a in call.args if isinstance(a, ast.Starred)]
+        dstar = [k.value for k in call.keywords if k.arg is None]
+        extra_pos = pos[len(ps):]
+
+        class V(ast.NodeTransformer):
+            def visit_Call(self, c):
+                self.generic_visit(c)
+                na = []
+                for a in c.args:
+                    if isinstance(a, ast.Starred) and isinstance(a.value, ast.Name) and a.value.id == va:
+                        na.extend(clone(x) for x in extra_pos)
+                        na.extend(ast.Starred(value=clone(x), ctx=ast.Load()) for x in star)
+                    else:
+                        na.append(a)
+                c.args = na
+                nk = []
+                for k in c.keywords:
+                    if k.arg is None and isinstance(k.value, ast.Name) and k.value.id == kwa:
+                        nk.extend(ast.keyword(arg=None, value=clone(x)) for x in dstar)
+                    else:
+                        nk.append(k)
+                c.keywords = nk
+                return c
+        return [V().visit(_subst(st, mapping)) for st in body]
+
+    for _ in range(depth):
+        changed = False
+        for node in list(ast.walk(fn)):
+            for fld in ("body", "orelse", "finalbody"):
+                lst = getattr(node, fld, None)
+                if not isinstance(lst, list):
+                    continue
+                new = []
+                for st in lst:
+                    if isinstance(st, ast.Expr) and isinstance(st.value, ast.Call):
+                        rep = expandable(st.value)
+                        if rep is not None:
+                            for r in rep:
+                                ast.copy_location(r, st)
+                                for x in ast.walk(r):
+                                    if hasattr(x, "lineno"):
+                                        x.lineno = st.lineno
+                            new.extend(rep)
+                            changed = True
+                            continue
+                    new.append(st)
+                setattr(node, fld, new)
+        if not changed:
+            break
+    ast.fix_missing_locations(fn)
+    return _set_parents(fn)
